@@ -1858,6 +1858,59 @@ import (
 // re-scheduled from inside its own callback or while its previous callback is still running.
 func TestVerifReplay(t *testing.T) {
 	fail := func(format string, a ...any) { t.Fatalf("REPLAY-VIOLATION "+format, a...) }
+	// Queue.Poll: an element that a poller is waiting for when the queue is shut down without flags is still delivered,
+	// at its time; with the cancel flag the poller returns empty-handed; a cancelled element is skipped
+	for _, mode := range []string{"plain", "cancel", "ignore", "element-cancelled"} {
+		q := NewQueue[int]()
+		due := time.Now().Add(300 * time.Millisecond)
+		el := q.Add(42, due)
+		if mode == "element-cancelled" {
+			q.Add(43, due.Add(50*time.Millisecond))
+		}
+		type res struct {
+			v  int
+			at time.Time
+		}
+		out := make(chan res, 1)
+		go func() { v := q.Poll(true); out <- res{v, time.Now()} }()
+		time.Sleep(80 * time.Millisecond) // the poller has popped the element and waits for its time
+		switch mode {
+		case "plain":
+			q.Shutdown()
+		case "cancel":
+			q.Shutdown(CancelPendingElements)
+		case "ignore":
+			q.Shutdown(IgnorePendingTimeouts)
+		case "element-cancelled":
+			el.Cancel()
+		}
+		select {
+		case r := <-out:
+			switch mode {
+			case "plain":
+				if r.v != 42 || r.at.Before(due) {
+					fail("Poll after a plain Shutdown returned %d, %v before the element was due", r.v, due.Sub(r.at))
+				}
+			case "cancel":
+				if r.v != 0 {
+					fail("Poll after Shutdown(CancelPendingElements) returned %d", r.v)
+				}
+			case "ignore":
+				if r.v != 42 {
+					fail("Poll after Shutdown(IgnorePendingTimeouts) returned %d", r.v)
+				}
+			case "element-cancelled":
+				if r.v != 43 {
+					fail("Poll returned %d after the element it waited for was cancelled (the next element is 43)", r.v)
+				}
+			}
+		case <-time.After(3 * time.Second):
+			fail("Poll does not return (%s): the element it popped was due after 300ms", mode)
+		}
+		if mode == "element-cancelled" {
+			q.Shutdown(CancelPendingElements)
+		}
+	}
 	// replace: only the last scheduling of an identifier runs
 	{
 		te := NewTaskExecutor[string](2)
